@@ -28,14 +28,14 @@ def scn_id(text):
     return "?"
 
 
-def run_batch(exe, mode, scns, wd, tag, env=None, timeout_s=20):
+def run_batch(exe, mode, scns, wd, tag, env=None, timeout_s=20, args=None, wrapper=None):
     """Run a list of scenario texts through implementation and model. Returns
     dict id -> dict(impl=[...], model=[...])"""
     f = os.path.join(wd, "b%s.scn" % tag)
     with open(f, "w") as fh:
         fh.write("".join(s if s.endswith("\n") else s + "\n" for s in scns))
     tr = os.path.join(wd, "b%s.trace" % tag)
-    rc, so, se = vlib.run_cmd([exe, f, tr, "--timeout", str(timeout_s)], env=env, timeout=timeout_s * len(scns) + 60)
+    rc, so, se = vlib.run_cmd((wrapper or []) + [exe, f, tr, "--timeout", str(timeout_s)] + (args or []), env=env, timeout=timeout_s * len(scns) + 60)
     impl_txt = open(tr).read() if os.path.exists(tr) else ""
     impl, order = split_batch(impl_txt)
     res = {}
@@ -114,7 +114,12 @@ class ScenarioCheck:
         fails = (self.spec(impl, r["scn"]) if self.spec_scn else self.spec(impl)) if self.spec else []
         return (mism, fails, crash[0] if crash else None)
 
-    def run(self, tier, seed, replay):
+    def _out(self, line):
+        if getattr(self, 'defer', False): self.deferred.append(line)
+        else: print(line)
+
+    def run(self, tier, seed, replay, write=True):
+        self.deferred = []
         t0 = time.time()
         prop = self.prop
         wd = vlib.workdir(prop)
@@ -221,14 +226,14 @@ class ScenarioCheck:
             x = list(rr.values())[0]
             txt = small + "\n# property statement fails on the implementation's own trace:\n" + "".join("#   %s: %s\n" % f for f in (self.evaluate(x)[1] or fails)) + "# implementation trace:\n" + "".join("#   %s\n" % l for l in (x["impl"] or []))
             p = vlib.save_replay(prop, seed, "spec", txt)
-            print("VIOLATION property=%s replay=%s" % (prop, p))
+            self._out("VIOLATION property=%s replay=%s" % (prop, p))
             violations += len(viol_spec)
         elif viol_crash:
             i, r, crash = viol_crash[0]
             small = shrink(r, "crash")
             txt = small + "\n# implementation did not finish cleanly: %s\n# stderr tail:\n%s" % (crash, "".join("#   %s\n" % l for l in (r.get("stderr") or "").split("\n")[-30:]))
             p = vlib.save_replay(prop, seed, "crash", txt)
-            print("VIOLATION property=%s replay=%s" % (prop, p))
+            self._out("VIOLATION property=%s replay=%s" % (prop, p))
             violations += len(viol_crash)
         elif viol_mism:
             i, r, mism = viol_mism[0]
@@ -238,12 +243,12 @@ class ScenarioCheck:
             m2 = first_diff(x["model"] or [], x["impl"] or []) or mism
             txt = small + "\n# correspondence broken (mechanism model %s vs implementation), label %d:\n#   model:          %s\n#   implementation: %s\n# the theorems of %s are about the model; the property statement evaluated on the\n# implementation traces of this run found no failing input.\n" % (self.mode, m2[0], m2[1], m2[2], ", ".join(self.modules))
             p = vlib.save_replay(prop, seed, "corr", txt)
-            print("VIOLATION property=%s replay=%s no-failing-input-found" % (prop, p))
+            self._out("VIOLATION property=%s replay=%s no-failing-input-found" % (prop, p))
             violations += len(viol_mism)
         elif not aud["ok"]:
             txt = "# Lean obligations of %s no longer check:\n" % prop + "".join("#   %s\n" % x for x in aud["problems"])
             p = vlib.save_replay(prop, seed, "lean", txt, ".txt")
-            print("VIOLATION property=%s replay=%s no-failing-input-found" % (prop, p))
+            self._out("VIOLATION property=%s replay=%s no-failing-input-found" % (prop, p))
             violations += 1
 
         samples = []
@@ -261,7 +266,10 @@ class ScenarioCheck:
             corpus=len(corpus), samples=samples)
         if hasattr(self, "extra_cov"):
             cov.update(self.extra_cov(results))
-        vlib.write_evidence(prop, tier, seed, cov, self.assumptions, time.time() - t0, violations)
+        self.last = (cov, violations, time.time() - t0)
+        self.results = results
+        if write:
+            vlib.write_evidence(prop, tier, seed, cov, self.assumptions, time.time() - t0, violations)
         try:
             os.rmdir(wd)
         except OSError:
